@@ -62,8 +62,27 @@ def inject(rng, prog, kind):
         m = rng.choice(excl)
         t = rng.choice(tids)
         body = nodes[t][1]["body"]
-        how = rng.choice(["same-body", "two-chains", "parallel-ifs", "disabled-calls"])
-        if how == "same-body":
+        how = rng.choice(["same-body", "two-chains", "parallel-ifs", "disabled-calls", "beside-existing-chain", "beside-existing-chain"])
+        if how == "beside-existing-chain":
+            # a direct call of an exclusive method right next to an existing call that already reaches it
+            # (possibly deep in the chain, possibly one of several exclusive alternatives calling the same method)
+            opts = []
+            for sid, st in a.sites.items():
+                reach = {st.target} | {ch[-1].target for ch in a.chains.get(st.target, [])}
+                for x in sorted(reach):
+                    if not a.nonex(x):
+                        opts.append((sid, x))
+            if not opts:
+                return None
+            sid, m = rng.choice(opts)
+            from .prop import _lists
+            for lst in _lists(prog):
+                for i, (k, n) in enumerate(lst):
+                    if k == "C" and n["sid"] == sid:
+                        lst.insert(i + 1 if rng.random() < 0.5 else i, _new_site(prog, m, rng))
+                        break
+            t = a.sites[sid].body
+        elif how == "same-body":
             body.append(_new_site(prog, m, rng))
             body.append(_new_site(prog, m, rng))
         elif how == "disabled-calls":  # enable_call does not make calls exclusive
